@@ -1,6 +1,7 @@
 From Coq Require Import List ZArith Extraction ExtrOcamlBasic.
-Require Import MayV.Sync.ChanMpscModel MayV.Sync.ChanMpscAccept.
-Definition m_init := ChanMpscAccept.m_initm.
-Definition m_accept := ChanMpscAccept.accept_evm.
-Definition m_final := ChanMpscAccept.monitors_okm.
+Require Import MayV.Sync.ChanMpscModel MayV.Sync.ChanMpscAccept MayV.Sync.ChanMpscTime MayV.Sync.ChanMpscTimeAccept.
+(* the acceptor of the timed overlay: follows recv_timeout traces with the scenario's clock *)
+Definition m_init := ChanMpscTimeAccept.tm_initm.
+Definition m_accept := ChanMpscTimeAccept.taccept_evm.
+Definition m_final := ChanMpscTimeAccept.tmonitors_okm.
 Extraction "../ocaml/gen/chan_mpsc_model.ml" m_init m_accept m_final.
